@@ -193,7 +193,8 @@ class E1(Base):
             u = rng.random()
             if u < self.CALL_FORMS and cfg["p"]:
                 # unusual but legal calling forms: numpy integers, keywords
-                cfg["p"]["call"] = rng.choice(("np", "np", "kw", "npkw"))
+                cfg["p"]["call"] = rng.choice(("np", "np", "kw", "npkw", "pos",
+                                               "nppos"))
             if "uf" in cfg["p"] and rng.random() < 0.3:
                 cfg["p"]["costs_int"] = True
         style = "every" if rng.random() < 0.7 else "first"
